@@ -41,7 +41,7 @@ fn main() {
                 let bytes = bytes_of(&c["bytes"]);
                 let mut base = c.as_object().unwrap().clone();
                 base.insert("kind".into(), json!("cell"));
-                run.case(base, || dec::decode_by_fam(&fam, &bytes));
+                run.case(base, || dec::decode_twice(&fam, &bytes));
             }
             run.finish();
         }
